@@ -1,7 +1,7 @@
 (** C07 - the node diff is exactly what a replica needs to synchronise.
     Statements only; proofs are in DiffLinks.v and DiffK.v. *)
 From Coq Require Import List NArith ZArith Bool.
-From Mast Require Import Prim Key Tree KeyOrder Codec Store Diff World Erase Build Spec Canon Links Level Inv Hist Reload DiffSpec DiffLinks DiffK.
+From Mast Require Import Prim Key Tree KeyOrder Codec Store Diff World Erase Build Spec Canon Links Level Inv Hist Reload DiffSpec DiffLinks DiffOnce DiffCanon DiffK.
 Import ListNotations.
 
 Section GENERIC.
@@ -58,8 +58,48 @@ Example C07_example :
   end = true.
 Proof. vm_compute. reflexivity. Qed.
 
-(** PARTIAL: "each name at most once" (the per-height memo alreadyNotified) is not proved yet; it
-    is decided on every run by the correspondence check and the reachable-set oracle. *)
+(** "Each name at most once": the per-layer memo (alreadyNotified) never lets a name be reported
+    twice, as added or as removed.  Generic in the key type; for any two canonical trees of one
+    configuration with consistently named links.  [no_stored_empty]: an empty tree holds no stored
+    (entry-less) node, which no version written by the repaired code does (D7). *)
+Section ONCE.
+Variables (K V : Type) (cmp : K -> K -> comparison) (veq : V -> V -> bool) (layer : K -> nat).
+Hypothesis cmp_eq : forall a b, cmp a b = Eq <-> a = b.
+Hypothesis veq_refl : forall v, veq v v = true.
+Variable P : name -> node K V -> Prop.
+Hypothesis hered : forall h c, P h c -> allh K V P c.
+Hypothesis Pfun : forall h a b, P h a -> P h b -> a = b.
+
+Theorem C07_at_most_once : forall bf (mo mn : mast K V) lo ln,
+  canon K V cmp layer bf mo lo -> canon K V cmp layer bf mn ln ->
+  no_stored_empty K V mo lo -> no_stored_empty K V mn ln ->
+  allh_l K V P (m_root _ _ mo) -> allh_l K V P (m_root _ _ mn) ->
+  oks (diff _ _ cmp veq layer (Some mo) mn) (fun r => NoDup (ads K V r) /\ NoDup (rms K V r)).
+Proof. exact (diff_once_canon K V cmp veq layer cmp_eq veq_refl P hered Pfun). Qed.
+
+(** the two facts it rests on: the names a canonical tree reaches are pairwise distinct ... *)
+Theorem C07_names_distinct : forall D (l : link K V),
+  allh_l K V (PS K V layer P D) l -> nodupk K V (to_list _ _ l) -> NoDup (names_l K V l).
+Proof. exact (names_l_nodup K V layer P hered Pfun). Qed.
+
+(** ... and alreadyNotified always finds the first key of a stored node of a canonical tree *)
+Theorem C07_first_key_found : forall D fuel h c, D <= fuel -> PS K V layer P D h c ->
+  exists t kh, first_key_layer _ _ layer fuel (LHash h c) = (t, Ok kh).
+Proof. exact (PS_keyed K V layer P). Qed.
+End ONCE.
+
+(** for the library's keys, two reachable trees over one store *)
+Theorem C07_at_most_once_k : forall s kind bf (mo mn : kmast) lo ln,
+  kcanon bf mo lo -> kcanon bf mn ln -> no_stored_empty key val mo lo -> no_stored_empty key val mn ln ->
+  root_allh s kind mo -> root_allh s kind mn ->
+  oks (diff _ _ kcmp bytes_eqb (klayer bf) (Some mo) mn) (fun r => NoDup (ads key val r) /\ NoDup (rms key val r)).
+Proof.
+  intros s kind bf. exact (diff_once_canon key val kcmp bytes_eqb (klayer bf) kcmp_eq bytes_eqb_refl (sto s kind) (sto_hered s kind) (sto_fun s kind) bf).
+Qed.
 Print Assumptions C07_sound_and_complete.
 Print Assumptions C07_node_diff.
 Print Assumptions C07_replica_sync.
+Print Assumptions C07_at_most_once.
+Print Assumptions C07_names_distinct.
+Print Assumptions C07_first_key_found.
+Print Assumptions C07_at_most_once_k.
